@@ -14,7 +14,8 @@ Definition h_call_ok (c : csite) : bool :=
   | [x; a] => (streq a "*argsh" || streq a "*self.argsh") && (prefix "remove_scaling(" x || streq x "x")
   | _ => false end.
 Definition prox_call_ok (c : csite) : bool :=
-  match c_args c with [x; u; a] => streq u "u" && streq a "*argsprox" && prefix "remove_scaling(" x | _ => false end.
+  (* the point is a fresh temporary (xopt + d un-scaled), so a proximal operator that works in place cannot alias anything the caller reuses *)
+  match c_args c with [x; u; a] => streq u "u" && streq a "*argsprox" && streq x "remove_scaling(xopt + d, scaling_changes)" | _ => false end.
 Theorem C06_user_callbacks_receive_their_arguments :
   forallb h_call_ok (filter (fun c => streq (c_dotted c) "h" || streq (c_dotted c) "self.h") (calls_of T_calls "h")) = true /\
   forallb prox_call_ok (calls_of T_calls "prox_uh") = true /\
